@@ -195,6 +195,7 @@ int Symbols::set(const char *name, uint32_t address)
     }
 
     entry = find(name);
+    if (entry == nullptr) { return -1; }
     entry->scope = 0;
     entry->flag_rw = true;
   }
